@@ -104,8 +104,16 @@ def region(D, view, base, pos):
         pad = bytes.fromhex(D[1])
         u = len(pad)
         data = view[rel:]
-        if len(data) % u:
-            raise Unspecified()
+        t = len(data) % u
+        if t:
+            # a region that is not a whole number of pad units: an incomplete last unit is padding only if it is the beginning
+            # of the pad unit; anything else is payload and stays (defined for pad units of one repeated byte only)
+            if len(set(pad)) > 1:
+                raise Unspecified()
+            if data[len(data) - t:] == pad[:t]:
+                data = data[:len(data) - t]
+            else:
+                return data, pos, end
         while len(data) >= u and data[len(data) - u:] == pad:
             data = data[:len(data) - u]
         return data, pos, end
